@@ -364,6 +364,10 @@ func compileStruct(typ *runtime.Type, structName, fieldName string, structTypeTo
 					continue
 				}
 				for k, v := range stDec.fieldMap {
+					if k != v.key {
+						// the lower-case alias of a member, not a member name
+						continue
+					}
 					if tags.ExistsKey(k) {
 						continue
 					}
@@ -392,6 +396,10 @@ func compileStruct(typ *runtime.Type, structName, fieldName string, structTypeTo
 				}
 				if dec, ok := contentDec.(*structDecoder); ok {
 					for k, v := range dec.fieldMap {
+						if k != v.key {
+							// the lower-case alias of a member, not a member name
+							continue
+						}
 						if tags.ExistsKey(k) {
 							continue
 						}
